@@ -206,6 +206,61 @@ def r8_attrs(text, notes, keep_derives=KEEP_DERIVES):
     return ''.join(out)
 
 
+def r8b_pub_fields(text, notes):
+    """R8b: widen struct field visibility to `pub` (Verus treats a struct with a private field as opaque in pub specs)"""
+    mask = mask_text(text)
+    m = re.search(r'\bstruct\b', mask)
+    if not m:
+        return text
+    brace = mask.find('{', m.end())
+    semi = mask.find(';', m.end())
+    if brace < 0 or (0 <= semi < brace):
+        return text
+    close = match_close(mask, brace)
+    out = []
+    i = brace + 1
+    depth = 0
+    start = i
+    fields = []
+    # split top-level fields at commas
+    j = i
+    while j < close:
+        c = mask[j]
+        if c in OPEN or c == '<':
+            depth += 1
+        elif c in CLOSE or (c == '>' and mask[j - 1] != '-'):
+            depth -= 1
+        elif c == ',' and depth == 0:
+            fields.append((start, j + 1))
+            start = j + 1
+        j += 1
+    if text[start:close].strip():
+        fields.append((start, close))
+    res = text[:brace + 1]
+    n = 0
+    for (a, b) in fields:
+        seg = text[a:b]
+        segm = mask[a:b]
+        # position of the field identifier: first identifier not inside attribute
+        k = 0
+        while True:
+            mm = re.compile(r'\s*').match(segm, k)
+            k = mm.end()
+            if segm.startswith('#', k):
+                br = segm.find('[', k)
+                k = match_close(segm, br) + 1
+                continue
+            break
+        if not re.match(r'pub\b', segm[k:]):
+            seg = seg[:k] + 'pub ' + seg[k:]
+            n += 1
+        res += seg
+    res += text[close:]
+    if n:
+        notes.add('R8', 'struct fields widened to pub: %d' % n)
+    return res
+
+
 def r3_mut_self(text, notes):
     """R3: `fn f(mut self, ..) {B}` -> `fn f(self, ..) { let mut self_ = self; B[self->self_] }`"""
     mask = mask_text(text)
@@ -428,6 +483,8 @@ def apply_rules(text, rules, notes, extra_log_macros=()):
             text = r7_assert_eq(text, notes)
         elif r == 'R8':
             text = r8_attrs(text, notes)
+        elif r == 'R8b':
+            text = r8b_pub_fields(text, notes)
         elif r == 'R10':
             text = r10_enumerate(text, notes)
         elif r == 'R6e':
